@@ -320,6 +320,10 @@ def build_harness(src, libinfo, wraps=(), ref=None, extra_defs=(), extra_link=()
         cmd.append(r['lib'])
     if ref:
         cmd.append('-DVERIF_HAVE_REF')
+    if '-DVERIF_FUZZ' in extra_defs:
+        # libFuzzer engine without its main(): the harness calls LLVMFuzzerRunDriver itself
+        rt = subprocess.run([cc, '-print-file-name=libclang_rt.fuzzer_no_main-x86_64.a'], stdout=subprocess.PIPE).stdout.decode().strip()
+        cmd += [rt, '-lstdc++']
     cmd += list(extra_link) + ['-lm', '-lpthread', '-o', exe + '.tmp%d' % os.getpid()]
     r = _run(cmd)
     if r.returncode:
@@ -421,6 +425,7 @@ def run_shards(exe, mode, seed, ncases, runspec, agg, nshards=None, timeout=900,
     while queue:
         p, s, prog, so, se, cmd = queue.pop(0)
         hung = False
+        fz_timeout = False
         try:
             p.wait(max(1, deadline - time.time()))
         except subprocess.TimeoutExpired:
@@ -435,6 +440,16 @@ def run_shards(exe, mode, seed, ncases, runspec, agg, nshards=None, timeout=900,
         for line in open(so.name, errors='replace'):
             agg.feed(line.rstrip('\n'), runspec)
         rc = p.returncode
+        if '-DVERIF_FUZZ' in runspec.get('defs', ()):
+            # libFuzzer's own statistics (stderr): coverage reached by this shard
+            errtxt = open(se.name, errors='replace').read()
+            mm = re.findall(r'#\d+\s+DONE\s+cov: (\d+) ft: (\d+) corp: (\d+)', errtxt)
+            if mm:
+                agg.feed('M libfuzzer_edges_covered_max_shard %s' % mm[-1][0], runspec)
+                agg.feed('C libfuzzer_features_sum %s' % mm[-1][1], runspec)
+                agg.feed('C libfuzzer_corpus_units_sum %s' % mm[-1][2], runspec)
+            if 'libFuzzer: timeout' in errtxt:
+                fz_timeout = True
         if hung or rc not in (0,):
             case = '?'
             try:
@@ -442,7 +457,9 @@ def run_shards(exe, mode, seed, ncases, runspec, agg, nshards=None, timeout=900,
             except OSError:
                 pass
             err = open(se.name, errors='replace').read()
-            if hung:
+            if fz_timeout:
+                agg.viol.append(('hang', case, 'libFuzzer: one input ran for more than 600 s\n' + err[-3000:], runspec))
+            elif hung:
                 # a case that stopped advancing is a hang (a violation key like any other); a shard that was still
                 # advancing from case to case when the time budget ran out (loaded machine) is inconclusive
                 try:
@@ -461,7 +478,19 @@ def run_shards(exe, mode, seed, ncases, runspec, agg, nshards=None, timeout=900,
                 # the crashed case killed its shard: resume the shard after that case so one (possibly
                 # known) crash does not mask the remaining cases
                 m = re.match(r'.*:(\d+)$', case)
-                if m and restarts < 40 * nshards and time.time() < deadline:
+                if re.match(r'^[^:]+:\d+:\d+:[0-9a-f-]+$', case) and restarts < 4 * nshards and time.time() < deadline:
+                    # libFuzzer shard: cannot resume; start a new one with a fresh libFuzzer seed (shard number beyond the others)
+                    restarts += 1
+                    cmd2 = list(cmd)
+                    cmd2[3] = str(int(cmd[3]) % 1000 + 1000 * restarts)
+                    e = dict(env)
+                    e['VERIF_PROGRESS'] = prog
+                    tag = '%d.r%d' % (s, restarts)
+                    so2 = open(os.path.join(rundir, 'out.' + tag), 'wb')
+                    se2 = open(os.path.join(rundir, 'err.' + tag), 'wb')
+                    p2 = subprocess.Popen(cmd2, stdout=so2, stderr=se2, env=e, cwd=rundir, start_new_session=True)
+                    queue.append((p2, s, prog, so2, se2, cmd2))
+                elif m and restarts < 40 * nshards and time.time() < deadline:
                     restarts += 1
                     nxt = int(m.group(1)) + int(cmd[4])
                     agg.evals += max(0, (nxt - int(cmd[3])) // int(cmd[4]))
@@ -622,6 +651,11 @@ def do_check(pid, tier, seed):
             n = run['n'][tier] if isinstance(run['n'], dict) else run['n']
             if n <= 0:
                 continue
+            if os.environ.get('VERIF_DEBUG_ONLY'):      # debugging aid (never used by registered commands): flavour[:mode] filter, case-count scale
+                f = os.environ['VERIF_DEBUG_ONLY'].split(':')
+                if f[0] != run['flavour'] or (len(f) > 1 and f[1] != run['mode']):
+                    continue
+                n = max(16, int(n * float(os.environ.get('VERIF_DEBUG_SCALE', '1'))))
             args = run.get('args', ())
             if isinstance(args, dict):
                 args = args.get(tier, ())
@@ -660,7 +694,10 @@ def do_replay(path):
     env.update(SAN_ENV)
     env.update(run.get('env') or {})
     env['VERIF_VERBOSE'] = '1'
-    if m:
+    fz = re.match(r'^[^:]+:\d+:\d+:([0-9a-f-]+)$', case)
+    if fz:
+        cmd = [exe, run['mode'], str(rp['seed']), '0', '1', '1', 'input=' + fz.group(1)] + list(run.get('args', ()))
+    elif m:
         idx = int(m.group(1))
         cmd = [exe, run['mode'], str(rp['seed']), str(idx), '1', str(idx + 1), '--only'] + list(run.get('args', ()))
     else:
